@@ -48,12 +48,20 @@ def make_sreg(names):
     """Explicit string-type registry; the IntString -> FloatString replace edge exists whenever both are present
     (as in the default registry)."""
     r = StringSerializableRegistry()
+    names = list(names)
+    helper = False
+    if names[-3:] == ["IsoDateString", "IsoTimeString", "IsoDatetimeString"]:
+        # the three date/time types at the end, in the documented order: register them the documented way
+        names, helper = names[:-3], True
+    present = set(names) | ({"IsoDateString", "IsoTimeString", "IsoDatetimeString"} if helper else set())
     for n in names:
         cls = PSEUDO[n]
-        if cls is FloatString and "IntString" in names:
+        if cls is FloatString and "IntString" in present:
             r.add(replace_types=(IntString,), cls=cls)
         else:
             r.add(cls=cls)
+    if helper:
+        dt.register_datetime_classes(r)
     return r
 
 
